@@ -58,6 +58,64 @@ def selection_forms(m):
     return forms
 
 
+def dsu_selection(rt, cap_t, counter_names=(('role', 'counter'),)):
+    """decorate - sort - undecorate:  [<candidate of t> for t in sorted((count(c), i, ..) for i, c in enumerate(cands))][:cap]
+    is the ascending order by count (the position only breaks ties).  Returns 'ok', ('bad', why) or None (not this shape)."""
+    slices = (('slice', ('none',), cap_t, ('none',)), ('slice', ('num', 0), cap_t, ('none',)))
+    capped = False
+    t = rt
+    if isinstance(t, tuple) and t and t[0] == 'sub' and t[2] in slices:
+        capped, t = True, t[1]
+    if isinstance(t, tuple) and len(t) == 4 and t[0] == 'call' and t[1] == ('name', 'list') and len(t[2]) == 1:
+        t = t[2][0]
+        if t[0] == 'sub' and t[2] in slices:
+            capped, t = True, t[1]
+    if not (isinstance(t, tuple) and t and t[0] in ('listcomp', 'genexp') and len(t[2]) == 1):
+        return None
+    elt, (it, ifs) = t[1], t[2][0][:2]
+    if ifs:
+        return None
+    if it[0] == 'sub' and it[2] in slices:
+        capped, it = True, it[1]
+    if not (it[0] == 'call' and it[1] == ('name', 'sorted') and len(it[2]) == 1):
+        return None
+    kw = dict(it[3])
+    if 'key' in kw:
+        return None
+    G = it[2][0]
+    if not (isinstance(G, tuple) and G[0] in ('genexp', 'listcomp') and len(G[2]) == 1 and not G[2][0][1] and isinstance(G[1], tuple) and G[1][0] == 'tuple'):
+        return None
+    git = G[2][0][0]
+    cv = ('cvar', 0, 0)
+    if git == ('call', ('name', 'enumerate'), (('role', 'cands'),), ()):
+        pos, cand = ('sub', cv, ('num', 0)), ('sub', cv, ('num', 1))
+    elif git == ('role', 'cands'):
+        pos, cand = None, cv
+    else:
+        return None
+    comps = G[1][1:]
+    counts = []
+    for cn in counter_names:
+        counts += [('sub', cn, cand), ('call', ('attr', cn, 'get'), (cand,), ()), ('call', ('attr', cn, 'get'), (cand, ('num', 0)), ())]
+    ok = False
+    for k, c in enumerate(comps):
+        if c == cand and elt == ('sub', cv, ('num', k)):
+            ok = True
+        if pos is not None and c == pos and elt == ('sub', ('role', 'cands'), ('sub', cv, ('num', k))):
+            ok = True
+    if not ok:
+        return None
+    if comps[0] not in counts:
+        if any(c in counts for c in comps[1:]):
+            return ('bad', 'the evaluation count is not the first component of the sort key: the candidates are ordered by something else first, so the selection is not the least-evaluated ones')
+        return None
+    if kw.get('reverse') not in (None, ('bool', False)):
+        return ('bad', 'descending sort selects the MOST evaluated candidates')
+    if not capped:
+        return ('bad', 'the ordered candidates are not cut at args.combination_number_upper_bound')
+    return 'ok'
+
+
 class SamplerPath:
     pass
 
@@ -165,8 +223,13 @@ def sampler_selection(repo, chk, prefix):
         seen.add(key)
         site = fn.site(res.returned) if hasattr(res.returned, 'lineno') else fn.site()
         # 2 / 4: the selection
+        dsu = dsu_selection(rt, E('args.combination_number_upper_bound')) if rt not in forms else None
         if rt in forms:
             chk.ok(f'{prefix}.2', 'R15', site, f'{desc}: {ast.unparse(res.returned)[:120]}', 'selection = stable ascending sort of the candidate list by count, prefix of length cap (the cap least-evaluated candidates, ties in list order)')
+        elif dsu == 'ok':
+            chk.ok(f'{prefix}.2', 'R15', site, f'{desc}: {ast.unparse(res.returned)[:120]}', 'selection = candidates decorated with (count, position), sorted, cut at the cap and undecorated: the cap least-evaluated candidates')
+        elif isinstance(dsu, tuple):
+            chk.bad(f'{prefix}.2', 'R15', site, f'{desc}: {ast.unparse(res.returned)[:160]}', dsu[1])
         else:
             why = 'selection must be sorted(candidates, key=counter.get)[:args.combination_number_upper_bound] (stable, ascending, prefix)'
             if "('bool', True)" in repr(rt) and 'reverse' in repr(rt):
